@@ -9,6 +9,7 @@ RULE = ("every optional accessor (take_opt_value[_if], take_opt_primitive[_if], 
         "same tag other form, truncated identifier, end-of-contents, nothing}, each followed by a generic read of everything left. "
         "Relational oracle: when the optional read reports absence, the rest of the run is identical to the run without it. "
         "non-trivial = the optional read reported absence or presence (no error).")
+CROSS = {'C02': 2000, 'C10': 3000, 'C11': 1500}   # cross streams: samples of neighbouring properties' request streams (outcomes, model <-> implementation)
 EXHAUSTIVE = {"quick": False, "thorough": False}
 EXHAUSTIVE_NOTE = {"quick": "", "thorough": ""}
 ASSUMPTIONS = []
@@ -88,6 +89,36 @@ def gen(tier, rng):
                 rm = "run %s slice %s %s" % (m, hx(d), sm)
                 out.append(rm)
                 MAND[ra] = rm
+    # absence is stable, in nested contexts: an inner value (definite or indefinite) that has a following
+    # sibling in its parent (definite, indefinite or top level); after the inner values have been read the
+    # optional read is issued two or three times (each must report absence and consume nothing - in
+    # particular nothing of the parent's next value), then the parent goes on with the sibling.
+    # (added after seeded change C09-4: is_exhausted looking at the inherited limit instead of the state)
+    for _ in range(N // 4):
+        m = rng.choice(modes)
+        k = rng.randrange(0, 3)
+        vals = [rng.choice([b"\x02\x01\x07", b"\x05\x00", b"\x04\x02ab"]) for _ in range(k)]
+        inner_indef = (m == "cer") or (m == "ber" and rng.random() < 0.6)
+        ibody = b"".join(vals)
+        inner = b"\x30\x80" + ibody + b"\x00\x00" if inner_indef else b"\x30" + length(len(ibody)) + ibody
+        sib = rng.choice([b"\x02\x01\x2a", b"\x05\x00", b"\x04\x01z", b"\x30\x80\x00\x00" if m != "der" else b"\x30\x00"])
+        nsib = rng.randrange(1, 3)
+        obody = inner + sib * nsib
+        octx = rng.choice(["top", "def", "indef"])
+        if m == "cer" and octx == "def": octx = "indef"
+        if m == "der" and octx == "indef": octx = "def"
+        cls, num = rng.choice(TAGS)
+        exp = scripts.tagtok(cls, num)
+        opts = [rng.choice(OPTS).replace("%T", exp) for _ in range(rng.randrange(2, 4))]
+        iscript = " ".join(["tv G"] * k + opts + rng.choice([[], ["all"], ["skipall"]]))
+        oscript = "tc { %s } %s all" % (iscript, rng.choice(["tv G", "tov G", "skipone", ""]))
+        if octx == "top":
+            d, sc = obody, oscript
+        elif octx == "def":
+            d, sc = b"\x30" + length(len(obody)) + obody, "tc { %s }" % oscript
+        else:
+            d, sc = b"\x30\x80" + obody + b"\x00\x00", "tc { %s }" % oscript
+        out.append("run %s %s %s %s" % (m, rng.choice(["slice", "slice", "bytes", "stingy"]), hx(d), " ".join(sc.split())))
     return out
 
 def strip_first_none(toks, nbefore):
